@@ -22,7 +22,7 @@ theorem qinv_frame {nat : List (Nat × Nat)} {h : Hist} {s s' : Sys} (q : QInv n
 /-! ## the history after one agent event -/
 
 theorem hstepA_issued (h : Hist) (a : Agent) (ev : Ev) :
-    (hstep h false a ev).issued = h.issued ++ (issueOf a ev).toList := by
+    (hstep h false a ev).issued = h.issued ++ issuesOf a ev := by
   simp only [hstep, Bool.false_eq_true, if_false]
 theorem hstepA_answered (h : Hist) (a : Agent) (ev : Ev) :
     (hstep h false a ev).answered = h.answered ++ (answeredNom a ev).toList := by
@@ -73,8 +73,8 @@ theorem qinv_stepA {nat : List (Nat × Nat)} {h : Hist} {s : Sys} (q : QInv nat 
   obtain ⟨hp1, hp2, hp3, hp4⟩ := hpost
   have hsub : ∀ x ∈ h.issued, x ∈ (hstep h false s.a ev).issued := by
     intro x hx; rw [hstepA_issued]; exact List.mem_append_left _ hx
-  have hiss : ∀ x, issueOf s.a ev = some x → x ∈ (hstep h false s.a ev).issued := by
-    intro x hx; rw [hstepA_issued, hx]; simp
+  have hiss : ∀ x, x ∈ issuesOf s.a ev → x ∈ (hstep h false s.a ev).issued := by
+    intro x hx; rw [hstepA_issued]; exact List.mem_append_right _ hx
   obtain ⟨hq, hsel, hans⟩ := step_frame_ctl s.a ev q.invA hs1 hk hs5 hp3 hp4
   have hansw := step_answered s.a ev hs1 hk hs5 hp3
   -- when the selection and the answered value stay, so does what the invariant says about them
@@ -102,9 +102,12 @@ theorem qinv_stepA {nat : List (Nat × Nat)} {h : Hist} {s : Sys} (q : QInv nat 
   · -- outstanding transactions of A
     intro pd hpd v hv
     rw [agentEv_a_false] at hpd
-    rcases hq.pend pd hpd with h1 | h1 | ⟨v', h1, h2⟩
+    rcases hq.pend pd hpd with h1 | h1 | ⟨v', h1, h2 | h2⟩
     · exact hsub _ (q.pendA pd h1 v hv)
     · rw [h1] at hv; cases hv
+    · rw [h1] at hv
+      cases hv
+      exact hiss _ (issueOf_mem_issuesOf h2)
     · rw [h1] at hv
       cases hv
       exact hiss _ h2
